@@ -916,13 +916,22 @@ func (s *session) establishChanFull(delay int) bool {
 	case "client-then-server-close":
 		must = C2S
 	}
-	if s.rng.Intn(2) == 0 {
+	// the two ways of filling alternate over the enumeration (a fixed half each)
+	cellNo, rep := s.cell.Idx%128, s.cell.Idx/128
+	if s.rng.Intn(2); (cellNo/2+rep)%2 == 1 {
 		return s.establishChanFullViaPeer(delay, must)
 	}
 	id, ok := s.openStream()
 	if !ok {
 		return false
 	}
+	// A second, short stream ends in the middle of the queue: its END_STREAM frame has the frames of
+	// the long stream queued up behind it. It is not used for anything else afterwards.
+	short, ok := s.openStream()
+	if !ok {
+		return false
+	}
+	s.open = s.open[:len(s.open)-1]
 	var fill [2]bool
 	if s.rng.Intn(4) == 0 {
 		fill[0], fill[1] = true, true
@@ -952,8 +961,21 @@ func (s *session) establishChanFull(delay int) bool {
 			nover++
 		}
 		total += 16 + over[dir]
+		// position of the short stream's last frame: while the reader will still be parked on a push
+		// when the writer gets to it (< over), else anywhere in the first 16
+		endAt := s.rng.Intn(16)
+		if over[dir] > 0 {
+			endAt = s.rng.Intn(over[dir])
+		}
+		s.res.Params["end_stream_at_queue_position_"+DirName(dir)] = endAt
 		for j := 0; j < 16+over[dir]; j++ {
-			if err := s.sender(dir).Data(id, false, s.payload(50)); err != nil {
+			var err error
+			if j == endAt {
+				err = s.sender(dir).Data(short, true, s.payload(50))
+			} else {
+				err = s.sender(dir).Data(id, false, s.payload(50))
+			}
+			if err != nil {
 				return s.fail("chan-full: data: %v", err)
 			}
 		}
